@@ -5,7 +5,7 @@ from .. import core, monitors, pcheck, world
 ID = "C18"
 LEVEL = "exploration"
 MAIN_CLAUSES = ["min_needs_sum", "min_needs_bounded_by_round1", "min_needs_priority", "retime_total",
-                "retime_at_least_round1", "bump_never_lowers", "bump_within_demand"]
+                "retime_at_least_round1", "bump_never_lowers", "bump_within_demand", "bump_reaches_optimiser"]
 RULE = (
     "history = 2-3 seeded three-round jobs, cbc or random-optimal-vertex solver (the round-1 vertex determines every "
     "hand-off), buggified hand-offs (round-2 meat shifted later so that re-timing has work to do; random threshold); "
@@ -29,7 +29,7 @@ def prepare():
 
 
 def generate(seed, h, tier):
-    return pcheck.generate(seed, ID, h, tier, vertex_p=0.5, fault_p=0.1, threshold_p=0.7, buggify_sites=("meat_lower",), buggify_p=0.35,
+    return pcheck.generate(seed, ID, h, tier, vertex_p=0.5, fault_p=0.25, threshold_p=0.7, buggify_sites=("meat_lower",), buggify_p=0.35,
                            profile_bias={"shutoff": (0.7, ["continued", "long_delayed_shutoff", "continued_after_10_percent_fed",
                                                            "long_delayed_shutoff_after_10_percent_fed", "short_delayed_shutoff"])})
 
